@@ -123,6 +123,24 @@ def impl_funds(bal, val, mask, unk):
     return sorted(alts)
 
 
+def impl_assert(ctab, mask, unk):
+    """vm.assertTrue(<table of 0/1>) through hevm_cheat_code.handle -> sorted [(fails, bits)]"""
+    from halmos.bytevec import ByteVec
+    from halmos.cheatcodes import hevm_cheat_code
+    from halmos.exceptions import FailCheatcode
+
+    sevm, ex, stack = fresh_state([scenarios.THIS], mask, unk)
+    base = len(ex.path.conditions)
+    arg = ByteVec([bytes.fromhex("0c9fd581"), z3.simplify(table_term(ctab, 256))])
+    with contextlib.redirect_stdout(io.StringIO()):
+        hevm_cheat_code.handle(sevm, ex, arg, stack)
+    alts = []
+    for e in [ex] + drain(stack):
+        failed = isinstance(e.context.output.error, FailCheatcode)
+        alts.append((1 if failed else 0, cond_bits(e, len(ctab), base)))
+    return sorted(alts)
+
+
 def impl_jump(valid_n, dst_vals, unk):
     """program: JUMP(calldata word) with `valid_n` JUMPDEST;STOP landing pads and symbolic_jump on;
     valuations = the listed calldata words.  -> ('halt',) | sorted [(target, bits)]"""
@@ -234,6 +252,37 @@ def run(rep, tier, r):
             rep.fail(kind, f"insufficient-funds fork: balance table {bal} value table {val} path mask {mask} unknown={unk}: implementation {ialts} model {malts}"
                      + (f"; valuations {uncovered} are covered by no alternative" if uncovered else "") + (f"; pairs {wrong} report the wrong outcome" if wrong else ""),
                      case={"funds_case": [bal, val, mask, unk], "implementation": ialts, "model": malts})
+    # ---- vm.assert*
+    cases = []
+    for _ in range(n):
+        nv = r.randrange(1, 6)
+        ctab = [r.choice([0, 1, 1, 2]) for _ in range(nv)]
+        mask = [1 if r.random() < 0.8 else 0 for _ in range(nv)]
+        if not any(mask):
+            mask[0] = 1
+        cases.append((ctab, mask, 1 if r.random() < 0.3 else 0))
+    res = m.batch([("bp_assert", [len(c)] + c + mk + [u]) for c, mk, u in cases])
+    for (ctab, mask, unk), mr in zip(cases, res):
+        nv = len(ctab)
+        malts = sorted((mr[1 + i * (nv + 1)], [b & k for b, k in zip(mr[2 + i * (nv + 1): 2 + i * (nv + 1) + nv], mask)]) for i in range(mr[0]))
+        try:
+            ialts = sorted((f, [b & k for b, k in zip(bits, mask)]) for f, bits in impl_assert(ctab, mask, unk))
+        except Exception as e:  # noqa: BLE001
+            rep.fail("broken-tie", f"vm.assert harness raised {type(e).__name__}: {e} on {ctab, mask, unk}", case={"assert_case": [ctab, mask, unk]})
+            continue
+        rep.case({"bp": "assert", "cond": ctab, "mask": mask, "unk": unk}, nontrivial=len(malts) > 1)
+        rep.count("branch_point", "assert alternatives=%d" % len(malts))
+        live = lambda alts: [x for x in alts if any(x[1])]  # noqa: E731
+        if live(ialts) != live(malts):
+            # spec: an input on which the relation is false must be covered by a state that ends as a failed assertion
+            lost = [i for i in range(nv) if mask[i] and ctab[i] == 0 and not any(f and bits[i] for f, bits in ialts)]
+            wrong = [i for i in range(nv) if mask[i] and ctab[i] != 0 and any(f and bits[i] for f, bits in ialts)]
+            uncovered = [i for i in range(nv) if mask[i] and not any(bits[i] for _f, bits in ialts)]
+            kind = "failing-input" if lost or wrong or uncovered else "broken-tie"
+            rep.fail(kind, f"vm.assertTrue over the table {ctab} path mask {mask} unknown={unk}: implementation {ialts} model {malts}"
+                     + (f"; the failing inputs {lost} reach no failed-assertion state" if lost else "") + (f"; inputs {wrong} satisfy the assertion but are reported as failing" if wrong else "")
+                     + (f"; inputs {uncovered} are covered by no state" if uncovered else ""),
+                     case={"assert_case": [ctab, mask, unk], "implementation": ialts, "model": malts})
     # ---- symbolic JUMP
     njump = 12 if tier == "quick" else 150
     for _ in range(njump):
@@ -260,5 +309,5 @@ def run(rep, tier, r):
         if ilive != mlive or flags["crashed"]:
             rep.fail("broken-tie", f"symbolic JUMP: valid destinations {valid}, destination values {vals}: implementation paths {ipaths} ({flags['crashed']}) model {malts}",
                      case={"jump_case": [valid_n, dst], "implementation": ipaths, "model": malts})
-    rep.count("tie", "branch-point correspondence cases", 2 * n + njump)
-    rep.coverage["traces_validated_against_impl"] = rep.coverage.get("traces_validated_against_impl", 0) + 2 * n + njump
+    rep.count("tie", "branch-point correspondence cases", 3 * n + njump)
+    rep.coverage["traces_validated_against_impl"] = rep.coverage.get("traces_validated_against_impl", 0) + 3 * n + njump
